@@ -55,3 +55,24 @@ Theorem C19_duration_printed_in_largest_dividing_unit d : d <> 0 ->
               (forall u' U', unit_multiplier u' = Some U' -> U < U' -> Z.rem d U' <> 0).
 Proof. exact (duration_string_largest_unit d). Qed.
 Print Assumptions C19_duration_printed_in_largest_dividing_unit.
+
+(** the -agg-method flag: every one of the six storable methods is accepted under the name it is printed
+    with (the seeded change C19-n dropped "first"), and nothing else is accepted: mix and percentile are names
+    of methods but cannot be stored *)
+Theorem C19_flag_accepts_the_printed_name_of_every_storable_method m :
+  1 <= m <= 6 -> flag_method (method_string m) = Some m.
+Proof.
+  intros H. unfold flag_method. rewrite (method_roundtrip m) by lia.
+  destruct (Z.leb_spec 1 m); [|lia]. destruct (Z.leb_spec m 6); [reflexivity|lia].
+Qed.
+Print Assumptions C19_flag_accepts_the_printed_name_of_every_storable_method.
+Theorem C19_flag_accepts_only_storable_methods s m : flag_method s = Some m -> 1 <= m <= 6 /\ method_of_string s = Some m.
+Proof.
+  unfold flag_method. destruct (method_of_string s) as [m'|]; [|discriminate].
+  destruct (Z.leb_spec 1 m') as [H1|H1]; cbn [andb]; [|discriminate]. destruct (Z.leb_spec m' 6) as [H6|H6]; [|discriminate].
+  intros Heq; injection Heq as <-. split; [lia|reflexivity].
+Qed.
+Print Assumptions C19_flag_accepts_only_storable_methods.
+Example C19_flag_rejects_mix_and_percentile :
+  flag_method (method_string 7) = None /\ flag_method (method_string 8) = None /\ flag_method (method_string 6) = Some 6.
+Proof. vm_compute. repeat split. Qed.
